@@ -1,8 +1,242 @@
 import BddVerif.Drive.Util
-/-! Driver for C16 — stub, to be written. -/
+import BddVerif.Model.VarSet
+import BddVerif.Drive.Hex
+/-!
+Driver for C16: replays each observed case through the model (`Model/VarSet.lean`) and evaluates the
+property's own predicate on the implementation's output:
+  * variable sets: a list of names is rejected (panic) exactly when it has a duplicate, a name with a character
+    of `NOT_IN_VAR_NAME`, or too many names; an accepted set has `num_vars = len`, `variables() = 0 … len-1`,
+    `name_of(v) = names[v]`, `variable_names() = names`, `var_by_name(p)` = the position of `p` in the list or
+    `None` — computed here with plain list functions, not with the model's hash map;
+  * constants, literals, single valuations, thresholds: the truth table of the observed array (by `evalF`) is
+    the constant / the literal / the single valuation / "exactly (at most) k of the DISTINCT listed variables are
+    true", and the array passes the executable canonicity test `isCanon`.
+Names travel hex-encoded (`h<utf8 bytes>`).
+-/
 namespace B.Drive.C16
-open B B.Drive
+open B B.Drive B.VS B.Drive.Hex
 
-def handle (key : String) (_ins _obs : List String) : Verdict := Verdict.bad ("key " ++ key)
+def showNats (xs : List Nat) : String :=
+  if xs.isEmpty then "~" else ",".intercalate (xs.map toString)
+
+def parseNats? (f : String) : Option (List Nat) :=
+  if f == "~" then some [] else (f.splitOn ",").mapM String.toNat?
+
+def showOpts (xs : List (Option Nat)) : String :=
+  if xs.isEmpty then "~" else ",".intercalate (xs.map showOptNat)
+
+/-! ### model side -/
+
+/-- what the harness prints for a set (`observe_set`) -/
+def observeSet (vs : VarSet) (probes : List String) : List String :=
+  let vars := vs.variables
+  let namesOf := vars.map fun x => match vs.nameOf x with | .ok s => encName s | _ => "panic"
+  [toString vs.numVars, showNats vars, if namesOf.isEmpty then "~" else ",".intercalate namesOf,
+   encNames vs.variableNames, showOpts (probes.map vs.varByName)]
+
+def showOutcomeArr : Outcome Arr → String
+  | .ok A => showArr A
+  | .err _ => "err"
+  | .panic _ => "panic"
+
+/-! ### predicate side (independent of the model's maps) -/
+
+def forbidden (s : String) : Bool := s.toList.any fun c => Gen.notInVarName.elem c
+
+def hasDup : List String → Bool
+  | [] => false
+  | s :: rest => rest.elem s || hasDup rest
+
+/-- position of the first occurrence -/
+def posOf (names : List String) (p : String) : Option Nat :=
+  let i := names.idxOf p
+  if i < names.length then some i else none
+
+/-- clauses of "the set maps names to variables bijectively in declaration order" on the observed fields -/
+def checkSet (names probes : List String) (fields : List String) : Option String :=
+  match fields with
+  | [n, vars, namesOf, varNames, byName] =>
+    if n != toString names.length then some "num_vars"
+    else if vars != showNats (List.range names.length) then some "variables"
+    else if namesOf != encNames names then some "name_of"
+    else if varNames != encNames names then some "variable_names"
+    else if byName != showOpts (probes.map (posOf names)) then some "var_by_name"
+    else none
+  | _ => some "fields"
+
+/-- `rejected` must be equivalent to "duplicate, forbidden character or too many" -/
+def checkCtor (names probes : List String) (maxLen : Nat) (obs : List String) (skip : Nat) : Option String :=
+  let bad := hasDup names || names.any forbidden || names.length > maxLen
+  match obs with
+  | ["panic"] => if bad then none else some "valid-names-rejected"
+  | "ok" :: fields =>
+    if bad then some "invalid-names-accepted"
+    else
+      let retOk := skip == 0 || fields.head? == some (showNats (List.range names.length))
+      if !retOk then some "returned-variables" else checkSet names probes (fields.drop skip)
+  | _ => some "outcome"
+
+def maxTT : Nat := 12
+
+/-- truth table of `A` (over `n` variables) is `f` -/
+def ttIs (A : Arr) (n : Nat) (f : (Nat → Bool) → Bool) : Bool :=
+  let t := ttOf A n
+  (List.range (2 ^ n)).all fun i => t[i]! == f (valOfIndex n i)
+
+/-- sampled valuations for large `n`: all false, all true, the indicator of `x` and its complement, and some
+    pseudo-random ones -/
+def samples (_n x : Nat) : List (Nat → Bool) :=
+  [fun _ => false, fun _ => true, fun i => i == x, fun i => i != x,
+   fun i => i % 2 == 0, fun i => (i * 7 + x) % 3 == 0, fun i => i < x, fun i => i ≤ x]
+
+def semIs (A : Arr) (n x : Nat) (f : (Nat → Bool) → Bool) : Bool :=
+  if numVars A != n then false
+  else if n ≤ maxTT then ttIs A n f
+  else (samples n x).all fun v => evalArr A v == f v
+
+def checkBdd (field : String) (n x : Nat) (f : (Nat → Bool) → Bool) (what : String) : Option String :=
+  match parseArr? field with
+  | none => some (what ++ ":outcome:" ++ field)
+  | some A =>
+    if !semIs A n x f then some (what ++ ":function")
+    else if !isCanon A then some (what ++ ":not-canonical")
+    else none
+
+def firstFail (xs : List (Option String)) : Option String := xs.findSome? id
+
+/-- number of distinct listed variables that are true -/
+def countTrue (vars : List Nat) (v : Nat → Bool) : Nat :=
+  (vars.eraseDups.filter v).length
+
+def limitNames (ctor : String) (count : Nat) : List String :=
+  (List.range count).map fun i => if ctor == "anon" then anonName i else "v" ++ toString i
+
+def handle (key : String) (ins obs : List String) : Verdict :=
+  match key, ins with
+  | "C16.new", [names, probes] =>
+    match decNames? names, decNames? probes with
+    | some names, some probes =>
+      let model := match VS.new names with
+        | .ok vs => " ".intercalate ("ok" :: observeSet vs probes)
+        | _ => "panic"
+      { agree := model == " ".intercalate obs, model, fail := checkCtor names probes 65533 obs 0,
+        nontrivial := names.length ≥ 2,
+        tags := ["new", if obs == ["panic"] then "rejected" else "accepted", s!"len{names.length}"] }
+    | _, _ => Verdict.bad "args"
+  | "C16.builder", [names, probes] | "C16.batch", [names, probes] =>
+    match decNames? names, decNames? probes with
+    | some names, some probes =>
+      let model := match viaBuilder names with
+        | .ok (vs, ret) => " ".intercalate ("ok" :: showNats ret :: observeSet vs probes)
+        | _ => "panic"
+      { agree := model == " ".intercalate obs, model, fail := checkCtor names probes 65534 obs 1,
+        nontrivial := names.length ≥ 2,
+        tags := ["builder", if obs == ["panic"] then "rejected" else "accepted", s!"len{names.length}"] }
+    | _, _ => Verdict.bad "args"
+  | "C16.anon", [k, probes] =>
+    match k.toNat?, decNames? probes with
+    | some k, some probes =>
+      let names := (List.range k).map anonName
+      let model := match newAnonymous k with
+        | .ok vs => " ".intercalate ("ok" :: observeSet vs probes)
+        | _ => "panic"
+      { agree := model == " ".intercalate obs, model, fail := checkCtor names probes 65533 obs 0,
+        nontrivial := k ≥ 2, tags := ["anon", s!"len{k}"] }
+    | _, _ => Verdict.bad "args"
+  | "C16.limit", [ctor, count] =>
+    match count.toNat? with
+    | some count =>
+      let names := limitNames ctor count
+      let res : Outcome VarSet := match ctor with
+        | "new" => VS.new names
+        | "builder" => (viaBuilder names).map (·.1)
+        | _ => newAnonymous count
+      let last := names.getLastD ""
+      let model := match res with
+        | .ok vs => " ".intercalate ["ok", toString vs.numVars, showOptNat (vs.varByName last),
+            match vs.nameOf (count - 1) with | .ok s => encName s | _ => "panic"]
+        | _ => "panic"
+      -- predicate: an accepted set is faithful on the probed variable; fewer than 65 534 distinct valid names
+      -- must be accepted (the exact position of the limit is compared with the model only)
+      let fail := match obs with
+        | ["panic"] => if count < 65534 then some "valid-names-rejected" else none
+        | ["ok", n, idx, nm] =>
+          if n != toString count then some "num_vars"
+          else if idx != toString (count - 1) then some "var_by_name"
+          else if nm != encName last then some "name_of" else none
+        | _ => some "outcome"
+      { agree := model == " ".intercalate obs, model, fail, nontrivial := true, tags := ["limit", ctor] }
+    | none => Verdict.bad "args"
+  | "C16.const", [n] =>
+    match n.toNat?, obs with
+    | some n, [t, f] =>
+      let model := showArr (B.mkTrue n) ++ " " ++ showArr (B.mkFalse n)
+      { agree := model == " ".intercalate obs, model,
+        fail := firstFail [checkBdd t n 0 (fun _ => true) "mk_true", checkBdd f n 0 (fun _ => false) "mk_false"],
+        nontrivial := false, tags := ["const"] }
+    | _, _ => Verdict.bad "args"
+  | "C16.lit", [n, x] =>
+    match n.toNat?, x.toNat?, obs with
+    | some n, some x, [a, b, c, d, e, g] =>
+      let byName := match newAnonymous n with
+        | .ok vs => [showOutcomeArr (vs.mkVarByName (anonName x)), showOutcomeArr (vs.mkNotVarByName (anonName x))]
+        | _ => ["panic", "panic"]
+      let model := " ".intercalate ([showArr (B.mkVar n x), showArr (B.mkNotVar n x), showArr (B.mkLiteral n x true),
+        showArr (B.mkLiteral n x false)] ++ byName)
+      { agree := model == " ".intercalate obs, model,
+        fail := firstFail [checkBdd a n x (fun v => v x) "mk_var", checkBdd b n x (fun v => !v x) "mk_not_var",
+          checkBdd c n x (fun v => v x) "mk_literal_true", checkBdd d n x (fun v => !v x) "mk_literal_false",
+          checkBdd e n x (fun v => v x) "mk_var_by_name", checkBdd g n x (fun v => !v x) "mk_not_var_by_name"],
+        nontrivial := true, tags := ["lit", if n ≤ maxTT then "tt" else "sampled"] }
+    | _, _, _ => Verdict.bad "args"
+  | "C16.litname", [names, name] =>
+    match decNames? names, decName? name, obs with
+    | some names, some name, [a, b] =>
+      let model := match VS.new names with
+        | .ok vs => showOutcomeArr (vs.mkVarByName name) ++ " " ++ showOutcomeArr (vs.mkNotVarByName name)
+        | _ => "panic panic"
+      let valid := !(hasDup names || names.any forbidden)
+      let fail := match valid, posOf names name with
+        | true, some x => firstFail [checkBdd a names.length x (fun v => v x) "mk_var_by_name",
+            checkBdd b names.length x (fun v => !v x) "mk_not_var_by_name"]
+        | _, _ => if a == "panic" && b == "panic" then none else some "unknown-name-accepted"
+      { agree := model == " ".intercalate obs, model, fail, nontrivial := (posOf names name).isSome,
+        tags := ["litname", if (posOf names name).isSome then "known" else "unknown"] }
+    | _, _, _ => Verdict.bad "args"
+  | "C16.val", [bits] =>
+    match obs with
+    | [r] =>
+      let bs := parseBits bits
+      let n := bs.length
+      let model := showArr (valuationBdd bs)
+      let agrees : (Nat → Bool) → Bool := fun v => (List.range n).all fun i => v i == bs.getD i false
+      let fail := match parseArr? r with
+        | none => some ("outcome:" ++ r)
+        | some A =>
+          if numVars A != n then some "num_vars"
+          else if n ≤ maxTT then (if ttIs A n agrees then none else some "function")
+          else
+            let w := valOfBits bs
+            if !evalArr A w then some "function:own-valuation"
+            else if (List.range n).any fun j => evalArr A (fun i => if i == j then !w i else w i) then some "function:neighbour"
+            else if evalArr A (fun i => !w i) then some "function:complement" else none
+      let fail := fail <|> (match parseArr? r with | some A => if isCanon A then none else some "not-canonical" | none => none)
+      { agree := model == r, model, fail, nontrivial := n ≥ 1, tags := ["val", if n ≤ maxTT then "tt" else "sampled"] }
+    | _ => Verdict.bad "args"
+  | "C16.exactly", [n, k, vars] | "C16.upto", [n, k, vars] =>
+    match n.toNat?, k.toNat?, parseNats? vars, obs with
+    | some n, some k, some vars, [r] =>
+      let exact := key == "C16.exactly"
+      let model := showOutcomeArr (if exact then mkSatExactlyK n k vars else mkSatUpToK n k vars)
+      let inRange := vars.all (· < n)
+      let spec : (Nat → Bool) → Bool := fun v => if exact then countTrue vars v == k else countTrue vars v ≤ k
+      let fail := if !inRange then none else checkBdd r n 0 spec (if exact then "exactly" else "up_to")
+      { agree := model == r, model, fail,
+        nontrivial := inRange && vars.length ≥ 1,
+        tags := [if exact then "exactly" else "upto",
+          if !inRange then "out-of-range" else if hasDup (vars.map toString) then "dup" else "nodup",
+          if k > vars.eraseDups.length then "k>len" else if k == 0 then "k=0" else "k-mid"] }
+    | _, _, _, _ => Verdict.bad "args"
+  | _, _ => Verdict.bad ("key " ++ key)
 
 end B.Drive.C16
